@@ -11,6 +11,16 @@ from numba import njit
 from numba import prange
 from numpy import uint64
 
+import os
+
+# Verification hook (add-only, off by default): when TANGERMEME_VERIF=1 the
+# per-thread scratch arrays of `_tomtom`, which are otherwise left
+# uninitialised by numpy.empty, are filled with the constant given in
+# TANGERMEME_VERIF_POISON so that a read of a cell that the current query did
+# not write shows up deterministically. Both are read once at import.
+_VERIF = os.environ.get('TANGERMEME_VERIF', '0') == '1'
+_VERIF_POISON = float(os.environ.get('TANGERMEME_VERIF_POISON', '12345.0'))
+
 
 @njit
 def _binned_median(x, bins, x_min, x_max, counts):
@@ -331,6 +341,18 @@ def _tomtom(Q, T, Q_lens, T_lens, Q_norm, T_norm, rr_inv, rr_counts, n_nearest,
 	_median_bins = numpy.empty((n, n_median_bins, 2), dtype='float64')
 
 	_results = numpy.empty((n, len(T_lens), 5), dtype='float64')
+
+	if _VERIF:
+		_gamma[:] = _VERIF_POISON
+		_gamma_int[:] = int(_VERIF_POISON) % 100
+		_f[:] = _VERIF_POISON
+		_A[:] = _VERIF_POISON
+		_B[:] = _VERIF_POISON
+		_A_csum[:] = _VERIF_POISON
+		_medians[:] = _VERIF_POISON
+		_median_bins[:] = _VERIF_POISON
+		_results[:] = _VERIF_POISON
+
 	results = numpy.empty((len(Q_lens), n_out_targets, n_outputs), 
 		dtype='float64') 
 
